@@ -244,6 +244,8 @@ class PrecipitateModel (PrecipitateBase):
                 self.PSDXalpha[p] = np.zeros((self.PBM[p].bins + 1,1))
                 self.PSDXbeta[p] = np.zeros((self.PBM[p].bins + 1,1))
 
+        #Equilibrium compositions that belong to this table (see _growthRateBinary)
+        self._lookupXEq = (xEqAlpha, xEqBeta)
         return xEqAlpha, xEqBeta
     
     def _setupAspectRatio(self):
@@ -541,6 +543,10 @@ class PrecipitateModel (PrecipitateBase):
         self.dTemp += T - self.pData.temperature[self.pData.n]
         if np.abs(self.dTemp) > self.constraints.maxTempChange:
             xEqAlpha, xEqBeta = self._createLookupBinary(T)
+        elif getattr(self, '_lookupXEq', None) is not None:
+            #The table may have been rebuilt since the last recorded step (intermediate stages of the iterator),
+            #    the equilibrium compositions have to be the ones of the table in use
+            xEqAlpha, xEqBeta = np.array(self._lookupXEq[0]), np.array(self._lookupXEq[1])
         else:
             xEqAlpha, xEqBeta = np.array([self.pData.xEqAlpha[self.pData.n]]), np.array([self.pData.xEqBeta[self.pData.n]])
         Y.xEqAlpha = xEqAlpha
